@@ -1,7 +1,7 @@
 (* C10/Trace.v — the dispatcher over proved step cases and the induction over the history. *)
 From Coq Require Import List NArith ZArith Bool Lia.
 Import ListNotations.
-Require Import Base.Wire Base.PyStr C10.Model C10.Lemmas C10.Handlers C10.SrvLemmas C10.Feed C10.Inv C10.Frame C10.Sim C10.Agree C10.Step C10.Step2 C10.StepMode C10.Step3 C10.Step4 C10.Step5.
+Require Import Base.Wire Base.PyStr C10.Model C10.Lemmas C10.Handlers C10.SrvLemmas C10.Feed C10.Inv C10.Frame C10.Sim C10.Agree C10.Step C10.Step2 C10.StepMode C10.Step3 C10.Step4 C10.Step5 C10.Step6 C10.Step7.
 Open Scope N_scope.
 
 Section Trace.
@@ -14,7 +14,7 @@ Definition proved_step (s : srv) (a : action) : bool :=
   match a with
   | AConnect _ _ _ => true
   | ATopic _ _ _ => true
-  | AJoin n [c] => if feq n (s_me s) then dead_or_absent s c else true
+  | AJoin n chans => if feq n (s_me s) then fresh_targets s chans else true
   | APart _ _ => true
   | AKick _ _ _ => true
   | AQuit _ => true
@@ -30,10 +30,9 @@ Lemma step_proved s b a : Inv s b -> proved_step s a = true ->
 Proof.
   intros I Hp. destruct a; try discriminate.
   - apply step_connect. exact I.
-  - destruct chans as [|c [|c2 r]]; try discriminate. cbn [proved_step] in Hp.
-    destruct (feq n (s_me s)) eqn:E.
-    + apply step_join_self_fresh; assumption.
-    + apply step_join_other; assumption.
+  - cbn [proved_step] in Hp. destruct (feq n (s_me s)) eqn:E.
+    + apply step_join_self_multi; assumption.
+    + apply step_join_other_multi; assumption.
   - apply step_part_multi. exact I.
   - apply step_kick. exact I.
   - apply step_quit. exact I.
@@ -84,7 +83,7 @@ Definition trace_example : list action :=
   [AConnect n_Foo u_ h_; AConnect n_bar u_ h_; AJoin n_test [c_a]; AJoin n_FOO [c_A]; ATopic n_foo c_a [104; 105];
    AMode n_TEST c_A [(true, 111, Some n_FOO); (true, 118, Some n_foo); (true, 98, Some mask1); (false, 98, Some mask2);
                      (true, 107, Some [107]); (true, 108, Some [49; 48]); (true, 116, None); (false, 111, Some n_test)];
-   ANick n_Foo n_FOO; AJoin n_TEST [c_b]; AJoin n_bar [c_B]; AJoin n_BAR [c_a]; ANick n_bar n_Baz;
+   ANick n_Foo n_FOO; AJoin n_TEST [c_b; [35; 122]; c_A]; AJoin n_bar [c_B; c_a; [35; 122]]; ANick n_bar n_Baz;
    AChghost n_Baz [118] [119]; AWho c_a; ATopic n_Baz c_B [121; 111]; AKick n_foo c_a [n_Baz; n_bar];
    ANick n_test n_Test2; APart n_Baz [c_b; c_a; c_B]; AMode n_Test2 c_b [(false, 108, None); (true, 115, None)];
    AKick n_FOO c_A [n_Test2]; AQuit n_foo; AReset; AJoin n_test [c_a]; AJoin n_Baz [c_A]].
